@@ -86,7 +86,7 @@ def transform_roots(ix):
         if "transform(" not in m.source:
             continue
         for st in m.tree.body:
-            if isinstance(st, ast.Assign) and isinstance(st.value, ast.Call) and _is_transform_ref(ix, m, st.value.func):
+            if isinstance(st, (ast.Assign, ast.AnnAssign)) and isinstance(st.value, ast.Call) and _is_transform_ref(ix, m, st.value.func):
                 cands = list(st.value.args[:1]) + [kw.value for kw in st.value.keywords if kw.arg in ("tape_transform", "expand_transform")]
                 for a in cands:
                     g = ix.resolve_expr(m, a)
